@@ -11,7 +11,8 @@ RULE_EXTRA = (" A fifth of the cases request the refinement explicitly: DoGlobal
               "scalars, and the objective may carry a level of +-1e2..1e7. The explicit form may go on with more global "
               "iterations and another refinement; another solver may be run in the process before the result is read; a "
               "sixth of the boxes are integer-valued and handed over as Python int lists or integer arrays.")
-RULE = ("Hypothesis-generated objectives whose unconstrained minimum lies outside or on the boundary of the box "
+RULE = ("[containment exact; one case in eight is a 1-D search pushed to the float resolution next to a face of the box] "
+        "Hypothesis-generated objectives whose unconstrained minimum lies outside or on the boundary of the box "
         "(linear, bowls with outside vertex, absolute sums with the kink on a face) plus the general families; "
         "N=1..5; boxes incl. far-from-origin and thin ones; refineSolution in {False,True}; itersLimit from 1 up "
         "(Nelder-Mead's maxiter is 0.05*itersLimit). Oracle: every logged evaluation point and the returned point "
